@@ -215,7 +215,8 @@ def s2_s3_update(ctx):
             ctx.violation('C04.S3', 'each queue is drained until it is empty', g.site, 'the dequeue is not inside a per-queue loop (one order per update at most)',
                           key='C04.S3|drain-until-empty')
         # ---- sort and execution loop
-        if len(execs) != 1 or len(execs[0][1]) != 1:
+        same_loop = bool(execs) and all(len(x_[1]) == 1 and x_[1][0][0] is execs[0][1][0][0] for x_ in execs)
+        if not same_loop:
             ctx.undecided('C04.S3', 'orders are executed at one site, in one loop over the drained batch', execs[0][0].site if execs else fn.site(),
                           '%d execution sites' % len(execs))
             continue
